@@ -120,8 +120,10 @@ pub fn index(rng: &mut Rng, text: &[u8]) -> usize {
 }
 
 pub fn items_chars(rng: &mut Rng, allow_panic: bool) -> String {
-    let n = *rng.pick(&[0usize, 1, 2, 3, 5, 9, 17, 20]);
-    let mut v: Vec<String> = (0..n).map(|_| hex(rand_char(rng).as_bytes())).collect();
+    let n = *rng.pick(&[0usize, 1, 2, 3, 5, 6, 9, 15, 16, 17, 20]);
+    // sometimes only multi-byte characters: few items, many bytes
+    let wide = rng.chance(35);
+    let mut v: Vec<String> = (0..n).map(|_| hex(if wide { CHARS[6 + rng.below(6)] } else { rand_char(rng) }.as_bytes())).collect();
     if allow_panic && rng.chance(20) {
         let at = rng.below(v.len() + 1);
         v.insert(at, "P".into());
@@ -181,7 +183,7 @@ pub fn random_op(rng: &mut Rng, ex: &Exec) -> String {
         } else if r < 88 {
             format!("from_char {d} {}", hex(rand_char(rng).as_bytes()))
         } else if r < 92 {
-            format!("collect_chars {d} {} {}", sizes(rng, 0, 16), items_chars(rng, true))
+            if rng.chance(40) { format!("collect_chars {d} exact {}", items_chars(rng, false)) } else { format!("collect_chars {d} {} {}", sizes(rng, 0, 16), items_chars(rng, true)) }
         } else if r < 95 {
             format!("collect_strs {d} {}", items_strs(rng, true, false))
         } else if r < 98 {
@@ -234,7 +236,7 @@ pub fn random_op(rng: &mut Rng, ex: &Exec) -> String {
     } else if r < 86 {
         format!("{tr}shrink_to_fit {h}")
     } else if r < 89 {
-        format!("extend_chars {h} {} {}", sizes(rng, o.len, o.cap), items_chars(rng, true))
+        if rng.chance(45) { format!("extend_chars {h} exact {}", items_chars(rng, false)) } else { format!("extend_chars {h} {} {}", sizes(rng, o.len, o.cap), items_chars(rng, true)) }
     } else if r < 91 {
         format!("extend_strs {h} {}", items_strs(rng, true, false))
     } else if r < 92 {
@@ -314,5 +316,6 @@ pub fn alphabet() -> Vec<String> {
         "clone_from 0 1".into(),
         "fault 0".into(),
         format!("extend_chars 0 18446744073709551000 {}", h("q")),
+        format!("extend_chars 0 exact {}", [h("€"), h("€"), h("𝄞"), h("é"), h("€"), h("€")].join(",")),
     ]
 }
